@@ -123,6 +123,26 @@ def edits(rng, a: ast.AST):
     return out
 
 
+def share_nodes(a):
+    """the same structure assembled from RE-USED node objects: every sub-tree that occurs more than once (equal dump) is one
+    object standing in all those places - as when a user passes one ast.Lambda to two operators or builds `pt * pt` from
+    one `pt` node (seed C20-w7-2)"""
+    b = copy.deepcopy(a)
+    first = {}
+
+    class Share(ast.NodeTransformer):
+        def generic_visit(self, node):
+            node = super().generic_visit(node)
+            if isinstance(node, ast.expr) and getattr(node, "_fields", ()) and not isinstance(getattr(node, "ctx", None), ast.Store):
+                key = ast.dump(node)
+                if key in first:
+                    return first[key]
+                first[key] = node
+            return node
+
+    return Share().visit(b)
+
+
 def shift_positions(a):
     b = copy.deepcopy(a)
     for n in ast.walk(b):
@@ -168,6 +188,7 @@ def check_cases(ctx, srcs, do_subproc=True):
             "deepcopy": lambda: copy.deepcopy(a),
             "shifted-positions": lambda: shift_positions(a),
             "non-field-attributes": lambda: annotate(a, ctx.rng),
+            "re-used-node-objects": lambda: share_nodes(a),
             "module-wrapped-lambda-route": lambda: ast.parse("(" + src + "\n)", mode="eval").body,
         }
         for name, mk in variants.items():
